@@ -13,9 +13,9 @@ def jobs(rng, thorough):
     T = core.tables()
     out = []
     for r in RECS:
-        for _ in range(6 if thorough else 1):
+        for _ in range(20 if thorough else 1):
             out.append((gen.api_init(rng, T, recorded=r), rng.randrange(10 ** 9), rng.choice([0, 3])))
-    for _ in range(1500 if thorough else 110):
+    for _ in range(8000 if thorough else 110):
         out.append((gen.api_init(rng, T), rng.randrange(10 ** 9), rng.choice([0, 0, 3])))
     return out
 
